@@ -76,6 +76,7 @@ type inst struct {
 	c      cacheAPI
 	cbs    []string // callbacks fired during the current call
 	curCb  int      // id of the callback in force (0 = none)
+	onCb   func(k string, v interface{}) // trace hook: called at every callback invocation
 	fnlog  []string
 }
 
@@ -92,7 +93,12 @@ func (in *inst) mkcb(id int) func(k string, v interface{}) {
 			in.c.Count()
 		}
 	}
-	return func(k string, v interface{}) { in.cbs = append(in.cbs, fmt.Sprintf("%d:%s:%s", id, k, val(v))) }
+	return func(k string, v interface{}) {
+		if in.onCb != nil {
+			in.onCb(k, v)
+		}
+		in.cbs = append(in.cbs, fmt.Sprintf("%d:%s:%s", id, k, val(v)))
+	}
 }
 
 func val(v interface{}) string {
